@@ -38,7 +38,10 @@ EXHAUSTIVE = {"quick": "all 36 tables over PIDs {5,7} x ppid in {5,7,unlisted 3}
                        "stat-open index 0..3 (children), 0..2 (parent), 0..6 (parents); all 36 tables over PIDs {1,2} x ppid in {1,2,unlisted 0} x "
                        "start tick in {0,1}, every caller, all four calls, cold and after [create_time(), clock step +100 s, boot_time()]; "
                        "13 seed-generated big tables (chain 1100, chain/comb 300 under recursion limit 150 or a deep stack, star 2000); all 9 tables "
-                       "over PIDs {5,7} x ppid in {5,7,unlisted 3}, caller alive/recycled/gone, four calls asked on a copy made by copy/deepcopy/pickle",
+                       "over PIDs {5,7} x ppid in {5,7,unlisted 3}, caller alive/recycled/gone, four calls asked on a copy made by copy/deepcopy/pickle; "
+                       "own-pid aliasing block (672 cases, fixed rng, never sampled): os.getpid() patched to a PID of the table -- all 9 tables over "
+                       "PIDs {5,7} x ppid in {5,7,unlisted 3}, caller alive/recycled/gone, four calls, own pid = the caller's or the other PID, "
+                       "recycled callers also after is_running() set _pid_reused; every history motif x four calls x own pid = handle / child / parent",
               "thorough": "all 1728 tables over PIDs {4,6,9} x ppid in {4,6,9,unlisted 2} x start in {10,20,30}, every caller, all four calls; "
                           "the same vanish-point enumeration as quick"}
 CASE_TIMEOUT = 30
